@@ -31,10 +31,11 @@ Theorem c12_refines : forall ops, Forall wf_op ops ->
 Proof. exact history_refines. Qed.
 Print Assumptions c12_refines.
 
-(* redefinition inside a step is refused and the store (incl. the ledger's cells) is unchanged ... *)
+(* redefinition inside a step is refused and the store (incl. the ledger's cells) is unchanged (the symbol and compound
+   overloads copy their argument before they ask: the copy is released again, only the fresh-address counter moved) ... *)
 Theorem c12_redefinition_refused : forall s id, Inv s -> 0 <= id -> isNewTerm s id = true ->
   (forall n, step s (OAddNum id n) = (EC_REDEF_TERM, s)) /\
-  (forall b, step s (OAddSym id b) = (EC_REDEF_TERM, s)) /\
+  (forall b, fst (step s (OAddSym id b)) = EC_REDEF_TERM /\ same_store s (snd (step s (OAddSym id b)))) /\
   (forall base args, fst (step s (OAddComp id base args)) = EC_REDEF_TERM /\ same_store s (snd (step s (OAddComp id base args)))).
 Proof. exact redefinition_refused. Qed.
 Print Assumptions c12_redefinition_refused.
@@ -46,6 +47,26 @@ Theorem c12_redefinition_replaces : forall s id n, Inv s -> 0 <= id -> -21474836
   fst (step s (OAddNum id n)) = 0 /\ getTerm (snd (step s (OAddNum id n))) id = Ok (ANum n).
 Proof. exact redefinition_replaces. Qed.
 Print Assumptions c12_redefinition_replaces.
+(* ... in particular when it is re-defined from its OWN stored content (the argument aliases the store's memory:
+   td.addTerm(id, newName, td.getTerm(id).terms()), td.addTerm(id, td.getTerm(id).symbol()),
+   td.addElement(id, td.getElement(id).terms(), newCond)): an argument is a value - the content held for id when the call is
+   made -, the item that comes back has exactly that content (new function symbol / tuple type / condition, the SAME
+   arguments / bytes / terms), and no other id changes.  For every state with Inv (all reachable ones: c12_refines). *)
+Theorem c12_redefine_own_content : forall s id, Inv s -> 0 <= id ->
+  (forall base args base', isNewTerm s id = false -> getTerm s id = Ok (AComp base args) ->
+     let s' := snd (step s (OAddComp id base' args)) in
+     fst (step s (OAddComp id base' args)) = 0 /\ getTerm s' id = Ok (AComp base' args) /\
+     (forall j, j <> id -> getTerm s' j = getTerm s j)) /\
+  (forall b, isNewTerm s id = false -> getTerm s id = Ok (ASym b) ->
+     let s' := snd (step s (OAddSym id b)) in
+     fst (step s (OAddSym id b)) = 0 /\ getTerm s' id = Ok (ASym b) /\
+     (forall j, j <> id -> getTerm s' j = getTerm s j)) /\
+  (forall ts c c', isNewElement s id = false -> getElement s id = Ok (mke ts c) ->
+     let s' := snd (step s (OAddElem id ts c')) in
+     fst (step s (OAddElem id ts c')) = 0 /\ getElement s' id = Ok (mke ts c') /\
+     (forall j, j <> id -> getElement s' j = getElement s j)).
+Proof. exact redefine_own_content. Qed.
+Print Assumptions c12_redefine_own_content.
 
 (* ledger: after every history the live heap cells are exactly the cells owned by stored items (one owner each; the
    count is the number of stored symbol/compound terms + elements + atoms), no operation faulted, and reset() - hence
@@ -169,3 +190,19 @@ Proof.
 Qed.
 Example ex_number : number (mk_num (-1)) = -1 /\ number (mk_num (-2147483648)) = -2147483648 /\ mk_num (-1) = 18446744073709551612.
 Proof. vm_compute. repeat split; reflexivity. Qed.
+(* the hypotheses of c12_redefine_own_content are met by a reachable state: after the mark, term 2 = f(1,1), the symbol 0
+   and element 0 are items of an earlier step; re-defining them from their stored content keeps the content *)
+Definition own_ops : list op := [OAddSym 0 [102]; OAddNum 1 7; OAddComp 2 0 [1; 1]; OAddElem 0 [2; 1] 3; OUpdate].
+Example ex_own_content :
+  let s := snd (run init own_ops) in
+  Forall wf_op own_ops /\ Inv s /\ isNewTerm s 2 = false /\ isNewTerm s 0 = false /\ isNewElement s 0 = false /\
+  getTerm s 2 = Ok (AComp 0 [1; 1]) /\ getTerm s 0 = Ok (ASym [102]) /\ getElement s 0 = Ok (mke [2; 1] 3) /\
+  getTerm (snd (step s (OAddComp 2 (-2) [1; 1]))) 2 = Ok (AComp (-2) [1; 1]) /\
+  getTerm (snd (step s (OAddSym 0 [102]))) 0 = Ok (ASym [102]) /\
+  getElement (snd (step s (OAddElem 0 [2; 1] 9))) 0 = Ok (mke [2; 1] 9) /\
+  live (hp (snd (step s (OAddComp 2 (-2) [1; 1])))) = live (hp s).
+Proof.
+  assert (W : Forall wf_op own_ops) by (unfold own_ops, wf_op, nul_free; repeat constructor; lia).
+  cbv zeta. split; [exact W|]. split; [apply (c12_refines own_ops W)|]. vm_compute. repeat split; reflexivity.
+Qed.
+
